@@ -3,6 +3,7 @@ package main
 import (
 	"fmt"
 	"math"
+	"os"
 	"sort"
 	"strings"
 	"unicode"
@@ -105,6 +106,10 @@ func overlapsHalf(a, b box) bool {
 
 type box struct{ x, y, w, h float64 }
 
+// verbose (C09_VERBOSE=1): full failure details; the default keeps them short because the recorded findings are hit
+// hundreds of thousands of times in the thorough tier.
+var verbose = os.Getenv("C09_VERBOSE") != ""
+
 type verdict struct {
 	ok      bool
 	sig     string
@@ -170,6 +175,11 @@ func judge(items []item, v view, family, aspect string) verdict {
 		}
 	}
 	residual, residualNeg, residualPos := false, false, false
+	type ambig struct {
+		ids []int
+		d   int
+	}
+	var ambiguous []ambig
 	if v.hasS {
 		S := strings.Join(v.strs, "\n")
 		got := nonSpace(S)
@@ -199,7 +209,11 @@ func judge(items []item, v view, family, aspect string) verdict {
 				}
 			}
 			if found < minC {
-				// the last (found..minC) items of this text are taken as the missing ones
+				// minC-found of the fragments with this text are missing; which ones is only ambiguous when the same
+				// text stands at several positions (repeat toggle): settled below
+				if found > 0 {
+					ambiguous = append(ambiguous, ambig{ids, minC - found})
+				}
 				for k := found; k < minC; k++ {
 					i := ids[k]
 					lost[i] = true
@@ -239,6 +253,32 @@ func judge(items []item, v view, family, aspect string) verdict {
 		}
 	}
 
+	// A rendering does not say WHICH of several same-text fragments is missing. The verdict does not depend on it;
+	// for naming the loss class take the choice that leaves the fewest fragments unexplained.
+	for _, a := range ambiguous {
+		best, bestBad := -1, 1<<30
+		for mask := 0; mask < 1<<len(a.ids); mask++ {
+			if bitsSet(mask) != a.d {
+				continue
+			}
+			for k, i := range a.ids {
+				lost[i] = mask&(1<<k) != 0
+			}
+			bad := 0
+			for _, c := range classifyLost(items, lost, family, v) {
+				if c == "unexplained" {
+					bad++
+				}
+			}
+			if bad < bestBad {
+				best, bestBad = mask, bad
+			}
+		}
+		for k, i := range a.ids {
+			lost[i] = best&(1<<k) != 0
+		}
+	}
+
 	// aspects: the element tree is judged twice, once for losses and once for duplication/invention
 	switch aspect {
 	case "loss":
@@ -274,13 +314,17 @@ func judge(items []item, v view, family, aspect string) verdict {
 	if residual {
 		parts = append(parts, "chars-unattributable")
 	}
-	if len(notes) > 14 {
-		notes = append(notes[:14], fmt.Sprintf("… %d more", len(notes)-14))
+	maxNotes, maxR := 5, 160
+	if verbose {
+		maxNotes, maxR = 60, 2000
+	}
+	if len(notes) > maxNotes {
+		notes = append(notes[:maxNotes], fmt.Sprintf("… %d more (replay the case with C09_VERBOSE=1 for everything)", len(notes)-maxNotes))
 	}
 	if v.hasS {
 		r := strings.Join(v.strs, " | ")
-		if len(r) > 600 {
-			r = r[:600] + "…"
+		if len(r) > maxR {
+			r = r[:maxR] + "…"
 		}
 		notes = append(notes, fmt.Sprintf("rendering: %q", r))
 	}
@@ -295,6 +339,7 @@ func judge(items []item, v view, family, aspect string) verdict {
 const (
 	pinMinLineWidth   = 5.0  // layout.LineConfig.MinLineWidth
 	pinMinColumnWidth = 50.0 // layout.ColumnConfig.MinColumnWidth
+	pinMinGapWidth    = 20.0 // layout.ColumnConfig.MinGapWidth
 	pinMinBlockWidth  = 10.0 // layout.BlockConfig.MinBlockWidth
 	pinMinBlockHeight = 5.0  // layout.BlockConfig.MinBlockHeight
 	pinConsumeOverlap = 0.5  // layout.bboxOverlaps: a paragraph is dropped when a heading/list box covers more than half of the smaller box
@@ -456,6 +501,18 @@ func classifyLost(items []item, lost []bool, family string, v view) []string {
 			if x1-x0 >= pinMinColumnWidth {
 				continue
 			}
+			// a column exists only next to a vertical whitespace gap: some other content of the page must lie at
+			// least the minimum gap width to the left or right of the band
+			hasGap := false
+			for j := 0; j < n; j++ {
+				if items[j].x >= x1+pinMinGapWidth || items[j].right() <= x0-pinMinGapWidth {
+					hasGap = true
+					break
+				}
+			}
+			if !hasGap {
+				continue
+			}
 			// nothing that survived may live entirely inside the band (it would have been in the same column)
 			clean := true
 			for r, mem := range runMembers {
@@ -566,6 +623,14 @@ func classifyDup(items []item, surplus []bool, family string, v view) []string {
 		classes["in-"+strings.Join(ks, "-and-")] = true
 	}
 	return sortedKeys(classes)
+}
+
+func bitsSet(x int) int {
+	n := 0
+	for ; x != 0; x &= x - 1 {
+		n++
+	}
+	return n
 }
 
 func sortedKeys(m map[string]bool) []string {
